@@ -4,13 +4,15 @@ import (
 	"encoding/binary"
 	"fmt"
 	"net/url"
+	"reflect"
 	"strings"
 
 	"verifharness/core"
 )
 
 // garbage input classes
-var gclasses = []string{"random", "random-text", "mutated", "truncated", "cross-type", "cross-codec", "crafted"}
+// (cycled by k; the two structure-aware classes get a double share)
+var gclasses = []string{"random", "random-text", "mutated", "truncated", "cross-type", "cross-codec", "crafted", "mutated", "crafted"}
 
 type garbler struct {
 	byCodec map[string][]*spec // round-trip capable specs per codec
@@ -163,6 +165,8 @@ func randomText(codecName string, r *core.Rand) []byte {
 		al = `<>/="' abAISL01&;#x![]-?<><>//`
 	case "plain":
 		al = "0123456789+-.eExXnNaAiIfFtTrRuUlL_ "
+	case "bypass":
+		return r.Bytes(r.Intn(40))
 	default: // binary codecs: small byte values are type / wire-type / length bytes
 		n := r.Intn(40)
 		b := make([]byte, n)
@@ -335,19 +339,40 @@ func putVarint(b []byte, v uint64) []byte {
 	return append(b, byte(v))
 }
 
+// pbFields lists (field number, wire type) of a generated message type from its struct tags.
+func pbFields(s *spec) [][2]uint64 {
+	var out [][2]uint64
+	if s.typ == nil || s.typ.Kind() != reflect.Struct {
+		return nil
+	}
+	for i := 0; i < s.typ.NumField(); i++ {
+		parts := strings.Split(s.typ.Field(i).Tag.Get("protobuf"), ",")
+		if len(parts) < 2 {
+			continue
+		}
+		var n uint64
+		fmt.Sscanf(parts[1], "%d", &n)
+		wt := map[string]uint64{"varint": 0, "fixed64": 1, "bytes": 2, "fixed32": 5, "zigzag32": 0, "zigzag64": 0, "group": 3}[parts[0]]
+		out = append(out, [2]uint64{n, wt})
+	}
+	return out
+}
+
 func craftProto(s *spec, r *core.Rand, depth int) []byte {
 	var b []byte
-	for i, n := 0, r.Intn(8); i < n; i++ {
+	known := pbFields(s)
+	for i, n := 0, 1+r.Intn(6); i < n; i++ {
 		fn := uint64(1 + r.Intn(9))
-		switch r.Intn(6) {
-		case 0:
-			fn = uint64(r.Intn(300))
-		case 1:
-			fn = uint64(r.Uint64()) >> uint(r.Intn(64))
-		}
-		wt := uint64(r.Intn(8))
-		if r.Intn(2) == 0 {
-			wt = []uint64{0, 2}[r.Intn(2)]
+		wt := []uint64{0, 2, 2, 3}[r.Intn(4)]
+		switch k := r.Intn(10); {
+		case k < 4 && len(known) > 0: // a field of the destination with its own wire type
+			f := known[r.Intn(len(known))]
+			fn, wt = f[0], f[1]
+		case k < 7:
+		case k == 7:
+			fn, wt = uint64(r.Intn(300)), uint64(r.Intn(8))
+		default:
+			fn, wt = uint64(r.Uint64())>>uint(r.Intn(64)), uint64(r.Intn(8))
 		}
 		b = putVarint(b, fn<<3|wt)
 		switch wt {
@@ -371,11 +396,13 @@ func craftProto(s *spec, r *core.Rand, depth int) []byte {
 				payload = craftProto(s, r, depth+1)
 			}
 			l := uint64(len(payload))
-			switch r.Intn(8) {
+			switch r.Intn(10) {
 			case 0:
 				l = uint64(len(payload)) + 1 + uint64(r.Intn(5))
-			case 1:
-				l = []uint64{1 << 31, 1<<31 - 1, 1<<32 - 1, 1 << 63, 1<<64 - 1, 1<<63 - 1}[r.Intn(6)]
+			case 1: // lengths around the int32 / int64 boundaries
+				l = []uint64{1 << 31, 1<<31 - 1, 1<<32 - 1, 1 << 63, 1<<64 - 1}[r.Intn(5)]
+			case 2, 3: // positive as an int, but index + length wraps around
+				l = 1<<63 - 1 - uint64(r.Intn(1+len(b)+16))
 			}
 			b = putVarint(b, l)
 			b = append(b, payload...)
